@@ -2,6 +2,7 @@ package vp
 
 import (
 	"context"
+	"crypto/tls"
 	"encoding/binary"
 	"fmt"
 	"io"
@@ -15,6 +16,8 @@ import (
 	grpctest "github.com/hashicorp/go-plugin/test/grpc"
 	"google.golang.org/grpc"
 	"google.golang.org/grpc/backoff"
+	"google.golang.org/grpc/credentials"
+	"google.golang.org/grpc/credentials/insecure"
 )
 
 // Payload is the deterministic byte stream for a nonce: every byte value
@@ -348,3 +351,43 @@ func PingConn(conn *grpc.ClientConn, timeout time.Duration, opts ...grpc.CallOpt
 }
 
 var _ net.Conn // keep import when trimmed
+
+// IntruderCredNames: credential classes a peer without the launch's keys can present.
+var IntruderCredNames = []string{"plaintext", "tls-nocert", "tls-selfsigned-other-name", "tls-same-name-other-key", "tls-same-name-verifying-own-ca"}
+
+// IntruderCreds builds the transport credentials of one class (fresh keys each time).
+func IntruderCreds(name string) credentials.TransportCredentials {
+	mk := func(certs ...tls.Certificate) credentials.TransportCredentials {
+		return credentials.NewTLS(&tls.Config{InsecureSkipVerify: true, Certificates: certs, ServerName: "localhost", MinVersion: tls.VersionTLS12})
+	}
+	switch name {
+	case "tls-nocert":
+		return mk()
+	case "tls-selfsigned-other-name":
+		c, k, _ := GenCertNamed("intruder", "Evil Corp")
+		return mk(KeyPair(c, k))
+	case "tls-same-name-other-key":
+		c, k, _ := GenCert()
+		return mk(KeyPair(c, k))
+	case "tls-same-name-verifying-own-ca":
+		c, k, _ := GenCert()
+		return credentials.NewTLS(&tls.Config{RootCAs: PoolOf(c), Certificates: []tls.Certificate{KeyPair(c, k)}, ServerName: "localhost"})
+	}
+	return insecure.NewCredentials()
+}
+
+// GRPCDialAs dials a brokered id through the broker's own DialWithOptions, but with the transport
+// credentials of an intruder class in place of the broker's (a later dial option overrides the
+// broker's): the connection travels the broker's regular path (the multiplexed session, the knock)
+// and only the TLS identity differs. Reports whether a PingPong call was answered.
+func GRPCDialAs(b *plugin.GRPCBroker, id uint32, cred string, timeout time.Duration) (bool, string) {
+	conn, err := b.DialWithOptions(id, grpc.WithTransportCredentials(IntruderCreds(cred)))
+	if err != nil {
+		return false, "dial: " + err.Error()
+	}
+	defer conn.Close()
+	if _, err := PingConn(conn, timeout); err != nil {
+		return false, err.Error()
+	}
+	return true, ""
+}
